@@ -240,12 +240,12 @@ inductive Step : State → Label → State → Prop where
       Step s (.invoke .c r) (doCInvoke s r)
   | cForward (s : State) (r : Res) (h : s.cpc = .attFailed .target) (hr : s.stored = some r) :
       Step s (.forward .c r) (doCForward s r)
-  /-- Ready() / Get() const&: `Empty()` is one acquire load (stale allowed) -/
+  /-- Ready() / Get() const&: `BaseCore::Ready()` is one acquire load compared with kResult (stale allowed) -/
   | cReadyLoad (s : State) (rest : List COp) (x : Word) (h : s.cpc = .idle) (ht : s.todo = .pre .ready :: rest)
-      (hx : loadOk s x) : Step s (.cLoad x) { s with cpc := .repReady (decide (x ≠ .empty)) }
+      (hx : loadOk s x) : Step s (.cLoad x) { s with cpc := .repReady (decide (x = .result)) }
   | cReady (s : State) (b : Bool) (h : s.cpc = .repReady b) : Step s (.ready b) (doCReady s b)
   | cGetcLoad (s : State) (rest : List COp) (x : Word) (h : s.cpc = .idle) (ht : s.todo = .pre .getc :: rest)
-      (hx : loadOk s x) : Step s (.cLoad x) { s with cpc := .repGetc (decide (x ≠ .empty)) }
+      (hx : loadOk s x) : Step s (.cLoad x) { s with cpc := .repGetc (decide (x = .result)) }
   | cGetc (s : State) (b : Bool) (h : s.cpc = .repGetc b) :
       Step s (.getc (if b then s.stored else none)) (doCGetc s b)
   /-- blocking wait on the MutexEvent -/
@@ -284,8 +284,8 @@ def next (s : State) : Label → Option State
   | .cLoad x =>
       if s.cpc = .idle ∧ loadOk s x then
         match s.todo with
-        | .pre .ready :: _ => some { s with cpc := .repReady (decide (x ≠ .empty)) }
-        | .pre .getc :: _ => some { s with cpc := .repGetc (decide (x ≠ .empty)) }
+        | .pre .ready :: _ => some { s with cpc := .repReady (decide (x = .result)) }
+        | .pre .getc :: _ => some { s with cpc := .repGetc (decide (x = .result)) }
         | op :: _ => match opCb op with
             | some k => some (doAttLoad s op k x)
             | none => none
